@@ -460,7 +460,7 @@ func sanitize(s string) string {
 
 func dedupStrings(in []string) []string {
 	seen := map[string]bool{}
-	var out []string
+	out := []string{}
 	for _, x := range in {
 		if !seen[x] {
 			seen[x] = true
